@@ -32,7 +32,11 @@ SPEC = {
                    "(dated today+-1, asof+-1, the week, next year, no date, impossible date, local. prefix, short name); "
                    "upload/ absent / with the week already uploaded / stale lock; server status 200/400/404/500/503; "
                    "between runs SetModeAsOf and new count files; a third of the non-on runs go through the real "
-                   "upload.Run; every 40th case runs counter.Open/Inc/Add/NewStack in a child process against a dir with "
+                   "upload.Run; every 8th case is one long-running process (one file object of the real library): rotate1, "
+                   "increments, mode file rewritten (raw or by SetModeAsOf; off / local / on / near-miss words, white-space "
+                   "variants), optional increments, rotate1 again with CounterTime at the end / +1 s / days past it / before "
+                   "it / same day, increments, count-file snapshots after each stage; "
+                   "every 40th case runs counter.Open/Inc/Add/NewStack in a child process against a dir with "
                    "a generated mode; 3 fixed year-1 cases (zero-time sentinel). observables: requests received, names in "
                    "local/ and upload/ after, recursive sha256 snapshot before/after, mode file. distinct = distinct case "
                    "lines; every case is compared with the model run and checked by the oracle"),
@@ -60,16 +64,19 @@ SPEC = {
                   "transport (the status is an input). Not modelled: report contents (JSON), the config download of "
                   "newUploader (mode on goes through the injected constructor), the debug log, concurrency between "
                   "uploaders, a mode change DURING a run or during the life of a process that already opened its count "
-                  "file (Open/rotate1 read the mode once; such a process keeps writing until the next rotation), "
+                  "file is modelled at rotations only (every rotate1 re-reads the mode; Add never does: known finding "
+                  "recording-until-rotation), "
                   "non-UTC offsets in count-file metadata, MkdirAll/WriteFile failures of SetModeAsOf. The order of the "
                   "weeks in reports() (Go map order) is fixed to first appearance in the model; decisions for different "
                   "weeks are independent and the suite compares sorted observables. posts_allowed assumes start and end "
                   "years 0..9999 (RFC3339 cannot express others). Known finding zero-time-sentinel: dates equal to "
-                  "0001-01-01 are treated as absent (refuted theorem + three real-code witnesses).",
+                  "0001-01-01 are treated as absent (refuted theorem + three real-code witnesses). Known finding "
+                  "recording-until-rotation: a process with a mapped count file keeps recording after the mode is set to "
+                  "off until its next rotate1 (refuted theorem + real-code witnesses).",
     "assumptions": [
         "strings.TrimSpace, time.Parse/Format(DateOnly), regexp dateRE behave as Lib/Bytes, Lib/Calendar and "
         "Model/Gating.re_date model them (sampled by the suites incl. malformed UTF-8 and years -300..12000)",
-        "the mode file does not change during one uploader run / after a process opened its counter file",
+        "the mode file does not change during one uploader run (changes between a process's Open / Add / rotate1 steps are modelled: OpSetMode)",
         "count-file metadata carries UTC (Z) instants with years 0..9999, as the counter library writes and RFC3339 allows",
         "X and the sample rate are not NaN (computeRandom never returns NaN; JSON cannot encode it); the runner orders "
         "float64 values by an order-preserving integer key computed in the Go harness",
